@@ -576,3 +576,170 @@ func TestVF_C18_Stall(t *testing.T) {
 			return r
 		})
 }
+
+
+// ---------------------------------------------------------------------------------------------
+// Two connections whose local start times differ by a generated number of hours (the local time zone is moved
+// between them): both files must exist afterwards, each with exactly its own frames.
+
+type vfTWClockCase struct {
+	Hours     int    `json:"hours_apart"`
+	FrameSize int    `json:"frame_size"`
+	Frames    int    `json:"frames"`
+	Seed      uint32 `json:"seed"`
+}
+
+func vfGenTWClock(t *rapid.T) vfTWClockCase {
+	return vfTWClockCase{Hours: rapid.SampledFrom([]int{12, 12, -12, 1, 24, 11, 13}).Draw(t, "hours"),
+		FrameSize: rapid.SampledFrom([]int{64, 640}).Draw(t, "framesize"), Frames: rapid.IntRange(3, 20).Draw(t, "frames"),
+		Seed: uint32(rapid.IntRange(1, 1<<30).Draw(t, "seed"))}
+}
+
+// vfTWPlainConn plays one plain connection into dir and waits for the writer goroutine to finish.
+func vfTWPlainConn(dir string, c vfTWCase) error {
+	conf := &Config{DeviceID: c.DevID, DeviceName: c.DevName, OutputDir: dir}
+	hdr, err := yaml.Marshal(map[string]interface{}{
+		headers.XResolution: c.W, headers.YResolution: c.H, headers.FrameSize: c.FrameSize, headers.Model: c.Model,
+		headers.Brand: c.Brand, headers.FPS: c.FPS, headers.Serial: 1, headers.Firmware: "1.2.3",
+	})
+	if err != nil {
+		return err
+	}
+	hdr = append(hdr, '\n')
+	server, client := net.Pipe()
+	done := make(chan error, 1)
+	go func() {
+		defer func() {
+			if p := recover(); p != nil {
+				done <- fmt.Errorf("PANIC in handleConn: %v", p)
+			}
+		}()
+		done <- handleConn(server, conf, false)
+	}()
+	client.SetWriteDeadline(time.Now().Add(20 * time.Second))
+	if _, err := client.Write(hdr); err != nil {
+		return err
+	}
+	frame := make([]byte, c.FrameSize)
+	for i := 0; i < c.Frames; i++ {
+		vfTWFrame(c, i, frame)
+		if _, err := client.Write(frame); err != nil {
+			return err
+		}
+	}
+	client.Close()
+	select {
+	case herr := <-done:
+		if herr == nil || !strings.Contains(herr.Error(), "EOF") {
+			return fmt.Errorf("handleConn ended with %v, want EOF", herr)
+		}
+	case <-time.After(30 * time.Second):
+		return fmt.Errorf("handleConn did not return")
+	}
+	deadline := time.Now().Add(30 * time.Second)
+	for vfWriterGoroutines() > 0 {
+		if time.Now().After(deadline) {
+			return fmt.Errorf("the writer goroutine is still running 30s after the connection ended")
+		}
+		time.Sleep(200 * time.Microsecond)
+	}
+	return nil
+}
+
+func vfRunTWClock(c vfTWClockCase) *kit.Result {
+	r := &kit.Result{NT: true}
+	if !(c.Hours == 24 || (c.Hours >= -12 && c.Hours <= 14 && c.Hours != 0)) || c.FrameSize < 8 || c.FrameSize > 40000 || c.Frames < 1 || c.Frames > 200 {
+		r.Failf("malformed case")
+		return r
+	}
+	dir, err := os.MkdirTemp(os.Getenv("VERIF_SCRATCH"), "twclock-")
+	if err != nil {
+		panic(err)
+	}
+	defer os.RemoveAll(dir)
+	log.SetOutput(io.Discard)
+	frameLogIntervalFirstMin, frameLogInterval = vfInitialFLI1, vfInitialFLI
+	a := vfTWCase{FrameSize: c.FrameSize, Frames: c.Frames, Seed: c.Seed, W: 160, H: 120, FPS: 9, Model: "lepton3", Brand: "flir", DevName: "clk", DevID: 4}
+	b := a
+	b.Seed = c.Seed ^ 0x5bd1e995
+	// The local time zone is moved between the two connections so that the second one starts exactly c.Hours later
+	// by the local clock, to the second (file names have one-second resolution), on the same calendar day where
+	// that is possible. (This test is built without the race detector: moving time.Local is a write the detector
+	// cannot order after the first connection's writer goroutine, which has exited by then.)
+	oldLocal := time.Local
+	defer func() { time.Local = oldLocal }()
+	for time.Now().Nanosecond() > 300e6 {
+		time.Sleep(5 * time.Millisecond)
+	}
+	tA := time.Now()
+	_, offA := tA.Zone()
+	time.Local = time.FixedZone("vfA", offA)
+	if err := vfTWPlainConn(dir, a); err != nil {
+		r.Failf("first connection: %v", err)
+		return r
+	}
+	frameLogIntervalFirstMin, frameLogInterval = vfInitialFLI1, vfInitialFLI
+	hours := c.Hours
+	if hours == 12 || hours == -12 {
+		hours = 12
+		if tA.In(time.Local).Hour() >= 12 {
+			hours = -12 // stay on the same calendar day
+		}
+	}
+	// wait until a whole number of seconds (plus a little) has passed since tA, then compensate for them
+	for {
+		el := time.Since(tA)
+		if ph := el % time.Second; ph > 20*time.Millisecond && ph < 300*time.Millisecond {
+			time.Local = time.FixedZone("vfB", offA+hours*3600-int(el/time.Second))
+			break
+		}
+		time.Sleep(5 * time.Millisecond)
+	}
+	if err := vfTWPlainConn(dir, b); err != nil {
+		r.Failf("second connection: %v", err)
+		return r
+	}
+	names, _ := filepath.Glob(filepath.Join(dir, "*.cptr"))
+	sort.Strings(names)
+	found := map[string]bool{}
+	for _, n := range names {
+		raw, err := os.ReadFile(n)
+		if err != nil {
+			panic(err)
+		}
+		f, err := vfParseCPTR(raw)
+		if err != nil {
+			r.Failf("%s is not a well-formed CPTR file: %v", filepath.Base(n), err)
+			return r
+		}
+		for _, cs := range []struct {
+			name string
+			c    vfTWCase
+		}{{"first", a}, {"second", b}} {
+			if len(f.Frames) != cs.c.Frames {
+				continue
+			}
+			want := make([]byte, cs.c.FrameSize)
+			same := true
+			for i, fr := range f.Frames {
+				vfTWFrame(cs.c, i, want)
+				if !bytes.Equal(fr, want) {
+					same = false
+					break
+				}
+			}
+			if same {
+				found[cs.name] = true
+			}
+		}
+	}
+	if !found["first"] || !found["second"] {
+		r.Failf("two connections whose local start times were %d hours apart left %d file(s) %v; the frames of the first connection are on disk: %v, of the second: %v", c.Hours, len(names), names, found["first"], found["second"])
+	}
+	return r
+}
+
+func TestVF_C18_Clock(t *testing.T) {
+	kit.Drive(t, "C18", "TestVF_C18_Clock", "generated: two connections to one output directory whose local start times differ by 12, -12, 1, 11, 13 or 24 hours (the local time zone is moved between them, to the second); both files must be on disk afterwards, each holding exactly its connection's frames. Every case counts as non-trivial.",
+		vfGenTWClock, vfRunTWClock)
+}
